@@ -205,6 +205,7 @@ class SelectionGraphBuilder:
         for instruction in ir_block:
             # In case of last statement, first perform phi-lifting:
             if instruction.is_terminator:
+                self.save_terminator_operands(ir_block, instruction)
                 self.copy_phis_of_successors(ir_block)
 
             # Dispatch the handler depending on type:
@@ -273,8 +274,8 @@ class SelectionGraphBuilder:
 
     def do_c_jump(self, node):
         """Process conditional jump into dag"""
-        lhs = self.get_value(node.a)
-        rhs = self.get_value(node.b)
+        lhs = self.terminator_operands.get(node.a) or self.get_value(node.a)
+        rhs = self.terminator_operands.get(node.b) or self.get_value(node.b)
         assert node.a.ty is node.b.ty
         cond = node.cond
         sgnode = self.new_node("CJMP", node.a.ty, lhs, rhs)
@@ -573,6 +574,32 @@ class SelectionGraphBuilder:
         output.vreg = vreg
         self.add_map(node, output)
         self.debug_db.map(node, vreg)
+
+    def save_terminator_operands(self, ir_block, terminator):
+        """Take a copy of the phi values that the terminator itself uses.
+
+        The phi copies made for the successor blocks are placed before the
+        terminator. When the terminator uses a phi of one of its successors
+        (a loop that tests its own phi node), it must still see the value of
+        this iteration, so it gets a copy taken before the phi registers are
+        overwritten.
+        """
+        self.terminator_operands = {}
+        overwritten = set()
+        for succ_block in ir_block.successors:
+            overwritten.update(succ_block.phis)
+
+        for value in terminator.uses:
+            if value in overwritten:
+                vreg = self.new_vreg(value.ty)
+                sgnode = self.new_node(
+                    "MOV", value.ty, self.get_value(value), value=vreg
+                )
+                self.chain(sgnode)
+                sgnode1 = self.new_node("REG", value.ty, value=vreg)
+                self.terminator_operands[value] = sgnode1.new_output(
+                    vreg.name
+                )
 
     def copy_phis_of_successors(self, ir_block):
         """When a terminator instruction is encountered, handle the copy
